@@ -1,16 +1,16 @@
 #!/bin/bash
 # seedregress.sh [names...] : run, for every stored seeded change, the quick tier of the check(s)
 # named first in its meta.json "caught_by" and report whether it still exits 1.
-cd /verif
-out=/verif/work/seedregress.txt; mkdir -p /verif/work; : > $out
+cd "$(dirname "$(readlink -f "$0")")/.." || exit 2   # (/verif, or a vp-run snapshot of it)
+out=$PWD/work/seedregress.txt; mkdir -p $PWD/work; : > $out
 names="$@"; [ -z "$names" ] && names=$(ls seeded)
 for n in $names; do
   ids=$(python3 -c "
 import json,re,sys
-m=json.load(open('/verif/seeded/$n/meta.json'))
+m=json.load(open('seeded/$n/meta.json'))
 ids=re.findall(r'C\d\d', m['caught_by'].split('(')[0]) or [m['property']]
 print(' '.join(dict.fromkeys(ids[:1])))")
-  if ! git -C /repo apply --check /verif/seeded/$n/patch.diff 2>/dev/null; then echo "$n SKIP (patch does not apply to HEAD)" >> $out; continue; fi
+  if ! git -C /repo apply --check $PWD/seeded/$n/patch.diff 2>/dev/null; then echo "$n SKIP (patch does not apply to HEAD)" >> $out; continue; fi
   for id in $ids; do
     r=$(SEED_LINES=40 tools/seedrun.sh seeded/$n/patch.diff $id 2>&1 | grep -E "^exit=" | tail -1)
     echo "$n $id $r" >> $out
